@@ -92,25 +92,41 @@ def gen_cells(ck):
         n_rounds = rng.randint(4, 8) if search != "RegEvo" else rng.randint(6, 12)
         if search == "CBO" and (cell["surrogate"] in ("GP", "HGBRT") or cell["acq"].startswith("MES")):
             n_rounds = min(n_rounds, 5)
-        script = ac.gen_script(rng, n_rounds, 4, again_p=rng.choice([0.0, 0.0, 0.25]), moo=rng.random() < 0.12)
+        script = ac.gen_script(rng, n_rounds, 4, again_p=rng.choice([0.0, 0.0, 0.25]), moo=rng.random() < 0.12,
+                               magnitude=rng.choice(ac.OBJ_MAGNITUDES))
         mode = "search" if (search != "RegEvo" and rng.random() < 0.12) else "asktell"
         cells.append((cell, spec, script, mode))
     # conditional log-uniform children whose lower bound (= the canonical inactive value) does not
     # survive transform -> inverse_transform, tree surrogates, sessions long past the random phase:
     # inactive branches are then proposed from the model and must still carry the exact lower bound
-    for k in range(ck.pick(14, 150)):
-        parent = rng.choice([
-            {"name": "c_kind", "kind": "cat", "choices": ["dense", "conv", "none"]},
-            {"name": "c_kind", "kind": "cat", "choices": [True, False]},
-            {"name": "c_kind", "kind": "ord", "choices": [1, 2, 4]},
-            {"name": "c_kind", "kind": "int", "lo": 0, "hi": 3, "log": False},
+    # The parents of the conditions take every kind of value, in particular values that are falsy
+    # in Python (False, 0) without being the canonical first value of their dimension, with
+    # children that are active exactly for those values: an active value must never be mistaken
+    # for a missing one.
+    for k in range(ck.pick(26, 220)):
+        parent, pcond = rng.choice([
+            ({"name": "c_kind", "kind": "cat", "choices": ["dense", "conv", "none"]}, None),
+            ({"name": "c_kind", "kind": "cat", "choices": [True, False]}, None),
+            ({"name": "c_kind", "kind": "cat", "choices": [True, False]}, {"op": "eq", "value": False}),
+            ({"name": "c_kind", "kind": "cat", "choices": [True, False]}, {"op": "ne", "value": True}),
+            ({"name": "c_kind", "kind": "ord", "choices": [1, 2, 4]}, None),
+            ({"name": "c_kind", "kind": "ord", "choices": [-1, 0, 1]}, {"op": "eq", "value": 0}),
+            ({"name": "c_kind", "kind": "int", "lo": 0, "hi": 3, "log": False}, None),
+            ({"name": "c_kind", "kind": "int", "lo": -2, "hi": 2, "log": False}, {"op": "eq", "value": 0}),
+            ({"name": "c_kind", "kind": "int", "lo": -2, "hi": 2, "log": False}, {"op": "gt", "value": -1}),
+            ({"name": "c_kind", "kind": "int", "lo": -3, "hi": 1, "log": False}, {"op": "lt", "value": 1}),
         ])
         pv = ac._values_of(parent)
         lo, hi = rng.choice([(3e-5, 7e3), (3e-4, 1.0), (2e-3, 5.0), (7e-3, 70.0)])
         child = {"name": rng.choice(["a_rate", "z_rate"]), "kind": "float", "lo": lo, "hi": hi, "log": True}
         hps = [parent, ac.with_default(rng, child, force=rng.random() < 0.5)]
-        conds = [{"child": child["name"], "cond": {"op": "eq", "parent": "c_kind", "value": pv[0]}
-                  if parent["kind"] != "int" else {"op": "gt", "parent": "c_kind", "value": 1}}]
+        if pcond is not None:
+            cond0 = dict(pcond, parent="c_kind")
+        elif parent["kind"] != "int":
+            cond0 = {"op": "eq", "parent": "c_kind", "value": pv[0]}
+        else:
+            cond0 = {"op": "gt", "parent": "c_kind", "value": 1}
+        conds = [{"child": child["name"], "cond": cond0}]
         if rng.random() < 0.5:
             c2 = {"name": rng.choice(["b_units", "y_units"]), "kind": "int", "lo": rng.choice([2, 8]), "hi": 64, "log": True}
             hps.append(c2)
@@ -125,6 +141,30 @@ def gen_cells(ck):
                 "strategy": rng.choice(["cl_max", "cl_min", "qUCB", "cl_mean"]), "design": "random",
                 "filter_failures": rng.choice(["min", "mean"])}
         script = ac.gen_script(rng, rng.randint(9, 12), 2, fail_p=0.05)
+        for st in script:
+            st["tell"] = [True]
+        cells.append((cell, spec, script, "asktell"))
+    # histories that go well past the random phase (n_initial_points = 2, 6-9 rounds, several
+    # surrogate fits) with told objectives of every magnitude, on spaces that hold a numeric
+    # sequence (all-int, all-float or mixing ints and floats): every proposal then comes from the
+    # model — inverse transform of the acquisition optimum, portfolio of acquisition functions —
+    # and every tell refits on the history as the optimizer scales it
+    slow = ("GP", "HGBRT")
+    for k in range(ck.pick(40, 420)):
+        surrogate = ac.SURROGATES[k % len(ac.SURROGATES)] if k < 16 else rng.choice(ac.SURROGATES)
+        # every acquisition function meets every surrogate family over the sweep; the portfolio
+        # ones (gp_hedge) get their share
+        acq = ac.ACQS[(k // 2) % len(ac.ACQS)] if k < 20 else rng.choice(ac.ACQS + ["gp_hedge", "gp_hedged"])
+        spec = ac.gen_spec(rng, n_hps=rng.randint(1, 3), kinds=["float", "int", "cat_str", "ord_int", "ord_float", "ord_mixed", "float_log"])
+        spec["hps"].append(ac.gen_hp(rng, f"h{len(spec['hps'])}", ["ord_mixed", "ord_mixed", "ord_int", "ord_float"]))
+        spec["reads"] = []
+        cell = {"search": "CBO", "seed": rng.randint(0, 10**6), "n_initial": 2,
+                "n_points": 12 if surrogate in slow or acq.startswith("MES") else 24,
+                "surrogate": surrogate, "acq": acq,
+                "strategy": rng.choice(["cl_max", "cl_min", "cl_mean", "qUCB", "qUCBd", "topk", "boltzmann"]),
+                "design": "random", "filter_failures": rng.choice(["min", "mean", "ignore"])}
+        n_rounds = rng.randint(5, 6) if surrogate in slow or acq.startswith("MES") else rng.randint(6, 9)
+        script = ac.gen_script(rng, n_rounds, 2, fail_p=0.08, magnitude=rng.choice(ac.OBJ_MAGNITUDES[2:]))
         for st in script:
             st["tell"] = [True]
         cells.append((cell, spec, script, "asktell"))
@@ -642,9 +682,16 @@ def _process(ck, d, cells, recs, reqs_meta):
                 sess_reqs.append(ac.session_request(cell, rec["decl"], rec))
                 sess_meta.append((case, rec))
     reps = d.ask_all(sess_reqs)
-    for (case, rec), rep in zip(sess_meta, reps):
+    for (case, rec), rep, req in zip(sess_meta, reps, sess_reqs):
         for p in rep["paths"]:
             ck.count("path:" + p)
+        if rep["mismatch"] is not None and ac.repeats_initial_point(rep["replayed"], req):
+            # a batch that hands out a point of the pre-computed design twice (the random points
+            # completing the batch were not filtered against it): not proposing a configuration
+            # twice is property C08's subject (finding recorded there); the model describes the
+            # repaired code and departs from the implementation exactly at such a batch
+            ck.count("session:departs-from-model-at-a-repeated-initial-point(C08)")
+            continue
         ck.count("session:" + ("replayed" if rep["mismatch"] is None else "MISMATCH"))
         if rep["mismatch"] is not None:
             ck.mismatch(case, {"model_vs_impl": rep["mismatch"], "rounds_replayed": rep["replayed"],
@@ -681,10 +728,26 @@ def run(ck):
             print("timing", secs, c)
     with ck.driver() as d:
         prov = _process(ck, d, cells, recs, None)
-        _fin_cases(ck, d)
-        _cs_cases(ck, d)
-        _fill_cases(ck, d)
-        _regevo_cases(ck, d)
+        for name, part in (("fin", _fin_cases), ("cs", _cs_cases), ("fill", _fill_cases), ("regevo", _regevo_cases)):
+            try:
+                part(ck, d)
+            except HarnessError:
+                raise
+            except Exception as e:  # noqa: BLE001
+                # the real code raised while this correspondence was driving it (e.g. the space
+                # cannot transform its own sample).  On the tree's HEAD that is the harness's
+                # fault; on a changed tree the correspondence is broken — and the failures the
+                # oracle found above must still be reported with their replays
+                from . import common
+
+                if not common.tree_differs_from_head():
+                    raise
+                import traceback
+
+                ck.count(f"L2_{name}_cannot_drive_implementation")
+                ck.mismatch({"kind": name, "harness_exception": type(e).__name__, "message": str(e)[:300]},
+                            {"traceback_tail": traceback.format_exc().strip().splitlines()[-10:],
+                             "meaning": f"the `{name}` correspondence could not drive the changed implementation"})
     ck.count("corpus_cases", n_corpus)
     # fingerprints: minimal option values / input class, from shrunk cases
     for key, req, shrunk, explained in ac.fingerprint_groups(prov, _shrink_job, max_workers=ck.pick(8, 12)):
